@@ -58,6 +58,10 @@ inductive Latch
   | closed
 deriving DecidableEq, Repr
 
+def Latch.isFailed : Latch → Bool
+  | .failed _ => true
+  | _ => false
+
 inductive RTask
   | running
   | ok
@@ -105,6 +109,7 @@ structure St where
   flushed : Bool                   -- `_unqueue_payloads` has run
   loopTid : Option Nat             -- thread of the asyncio event loop
   trioTid : Option Nat             -- thread of trio.run
+  thrTids : List Nat               -- threads of the thread payloads of this run
   execs : Nat → Option (Flav × Nat)  -- execute calls in flight: flavour and thread
   failedQuiet : List Nat           -- ghost: failures recorded while nothing had asked the run to stop
   pids : List Nat                  -- every payload / unit ever registered
@@ -114,7 +119,7 @@ def upd {α} (f : Nat → α) (p : Nat) (v : α) : Nat → α := fun q => if q =
 def St.init : St :=
   { phase := .idle, guard := none, pay := fun _ => .absent, fl := fun _ => .thr, starts := fun _ => 0,
     tid := fun _ => none, latch := fun _ => .opened, rtask := fun _ => .running, gather := .pending,
-    stopReq := false, flushed := false, loopTid := none, trioTid := none, execs := fun _ => none,
+    stopReq := false, flushed := false, loopTid := none, trioTid := none, thrTids := [], execs := fun _ => none,
     failedQuiet := [], pids := [] }
 
 def Phase.restartable : Phase → Bool
@@ -123,10 +128,12 @@ def Phase.restartable : Phase → Bool
   | _ => false
 
 /-- nothing has asked the run to stop yet -/
-def St.quiet (s : St) : Bool := !s.stopReq && s.gather == .pending
+def St.quiet (s : St) : Prop := s.stopReq = false ∧ s.gather = .pending
+instance (s : St) : Decidable s.quiet := by unfold St.quiet; infer_instance
 
 /-- the runtime has begun closing -/
-def St.closing (s : St) : Bool := s.stopReq || s.gather != .pending
+def St.closing (s : St) : Prop := s.stopReq = true ∨ s.gather ≠ .pending
+instance (s : St) : Decidable s.closing := by unfold St.closing; infer_instance
 
 def Flav.isCo : Flav → Bool
   | .thr => false
@@ -179,14 +186,28 @@ def St.setFlavTid (s : St) (f : Flav) (t : Nat) : St :=
   match f with
   | .aio => { s with loopTid := some t }
   | .trio => { s with trioTid := some t }
-  | .thr => s
+  | .thr => { s with thrTids := t :: s.thrTids }
 
 /-- thread routing: coroutine flavours stick to their one thread, thread payloads stay off them -/
 def St.tidOK (s : St) (f : Flav) (t : Nat) : Bool :=
   match f with
-  | .aio => (s.loopTid == none || s.loopTid == some t) && s.trioTid != some t
-  | .trio => (s.trioTid == none || s.trioTid == some t) && s.loopTid != some t
+  | .aio => (s.loopTid == none || s.loopTid == some t) && s.trioTid != some t && !s.thrTids.contains t
+  | .trio => (s.trioTid == none || s.trioTid == some t) && s.loopTid != some t && !s.thrTids.contains t
   | .thr => s.loopTid != some t && s.trioTid != some t
+
+/-- which result the run call may end with, read off what `gather` saw.
+A KeyboardInterrupt raised by a payload may end the run either way ("only a KeyboardInterrupt
+ends the run without an error"): thread / asyncio payloads make it return, a trio payload
+makes it raise the exception group -/
+def St.resultOK (s : St) (r : Res) : Bool :=
+  match s.gather with
+  | .raised p =>
+    (match s.pay p with
+     | .done .baseExc => r == .raisedBase p
+     | .done .sysExit => r == .raisedBase p
+     | .done .kbd => r == .raisedBase p || r == .returned
+     | _ => r == .raisedRT p)
+  | _ => r == .returned
 
 def step (s : St) : Ev → Option St
   | .acceptBegin r =>
@@ -194,7 +215,7 @@ def step (s : St) : Ev → Option St
         -- a new run: fresh latches, runner tasks, flags; payloads of an earlier run are history
         some { s with phase := .launching, guard := some r, latch := fun _ => .opened,
                       rtask := fun _ => .running, gather := .pending, stopReq := false, flushed := false,
-                      loopTid := none, trioTid := none, failedQuiet := [] }
+                      loopTid := none, trioTid := none, thrTids := [], failedQuiet := [] }
       else none
   | .acceptReject _ => if s.guard ≠ none then some s else none
   | .launch => if s.phase = .launching then some { s with phase := .up } else none
@@ -234,7 +255,10 @@ def step (s : St) : Ev → Option St
   | .record p =>
       match s.pay p with
       | .ended o =>
-        if o.loopKiller ∧ s.fl p ≠ .trio then
+        if s.phase ≠ .up then
+          -- the run is over: nobody is left to notice (threads may outlive the run)
+          some { s with pay := upd s.pay p (.done o) }
+        else if o.loopKiller ∧ s.fl p ≠ .trio then
           if s.latch (s.fl p) = .opened ∨ (o = .kbd ∧ s.fl p = .aio) then
             -- stops the event loop at once, overriding whatever `gather` had seen before
             some { s with pay := upd s.pay p (.done o),
@@ -284,7 +308,7 @@ def step (s : St) : Ev → Option St
       -- asyncio / trio payloads are executed on their one thread; a threading payload is run
       -- directly by the calling thread, whichever that is (ThreadRunner.run_payload)
       if s.phase = .up ∧ s.execs e = none ∧ (f = .thr ∨ s.tidOK f t) then
-        some { (s.setFlavTid f t) with execs := upd s.execs e (some (f, t)) }
+        some { (if f = .thr then s else s.setFlavTid f t) with execs := upd s.execs e (some (f, t)) }
       else none
   | .execEnd e _ =>
       match s.execs e with
@@ -297,17 +321,7 @@ def step (s : St) : Ev → Option St
           ∧ s.rtask .aio ≠ .running ∧ s.rtask .trio ≠ .running ∧ s.rtask .thr ≠ .running
           ∧ s.latch .aio ≠ .opened ∧ s.latch .trio ≠ .opened ∧ s.latch .thr ≠ .opened
           ∧ s.pids.all (fun p => !((s.fl p).isCo && s.coBusy p)) = true then
-        -- a KeyboardInterrupt raised by a payload may end the run either way ("only a
-        -- KeyboardInterrupt ends the run without an error"): thread / asyncio payloads make it
-        -- return, a trio payload makes it raise the exception group
-        let ok : Bool := match s.gather with
-          | .raised p => (match s.pay p with
-              | .done .baseExc => r == .raisedBase p
-              | .done .sysExit => r == .raisedBase p
-              | .done .kbd => r == .raisedBase p || r == .returned
-              | _ => r == .raisedRT p)
-          | _ => r == .returned
-        if ok then some { s with phase := .ended r, guard := none } else none
+        if s.resultOK r then some { s with phase := .ended r, guard := none } else none
       else none
 where
   upd' {α} (f : Flav → α) (k : Flav) (v : α) : Flav → α := fun q => if q = k then v else f q
